@@ -217,6 +217,12 @@ def derived_locals(fn, seeds, through_calls=None):
     """Forward slice: locals whose value derives from any seed local via use/ref/cast/field copies
     (and via call results when through_calls(term) is true)."""
     derived = set(seeds)
+    mut_borrow_of = {}
+    for b in fn.blocks:
+        for s in b["stmts"]:
+            r = s["rhs"]
+            if r["rv"] == "ref" and r.get("mut") and not s["lhs"]["p"]:
+                mut_borrow_of[s["lhs"]["l"]] = r["pl"]["l"]
     changed = True
     while changed:
         changed = False
@@ -233,8 +239,17 @@ def derived_locals(fn, seeds, through_calls=None):
                         derived.add(tgt)
                         changed = True
             t = b["term"]
-            if t["t"] == "call" and through_calls and t["dest"]["l"] not in derived:
-                if any(any(_op_reads(a, d) for d in derived) for a in t["args"]) and through_calls(t):
+            if t["t"] == "call" and through_calls:
+                tainted = any(any(_op_reads(a, d) for d in derived) for a in t["args"])
+                if tainted and t["dest"]["l"] not in derived and through_calls(t):
                     derived.add(t["dest"]["l"])
                     changed = True
+                if tainted and through_calls(t):
+                    # a tainted value handed to a call together with `&mut L` may be stored into L (push, push_str, insert ...)
+                    for a in t["args"]:
+                        if a.get("pl") and not a["pl"]["p"] and a["pl"]["l"] in mut_borrow_of:
+                            L = mut_borrow_of[a["pl"]["l"]]
+                            if L not in derived:
+                                derived.add(L)
+                                changed = True
     return derived
